@@ -551,3 +551,69 @@ impl DateFilter for ds::WeekRange {
         Some(res)
     }
 }
+
+/// Verification hooks: thin public wrappers over private helpers of this file.
+/// Compiled only with the `verif` feature; nothing here is used by the library.
+#[cfg(feature = "verif")]
+pub mod verif_hooks {
+    use std::ops::RangeInclusive;
+
+    use chrono::NaiveDate;
+    use opening_hours_syntax::rules::day as ds;
+
+    pub use super::DateFilter;
+
+    pub fn valid_ymd_before(year: i32, month: u32, day: u32) -> NaiveDate {
+        super::valid_ymd_before(year, month, day)
+    }
+
+    pub fn valid_ymd_after(year: i32, month: u32, day: u32) -> NaiveDate {
+        super::valid_ymd_after(year, month, day)
+    }
+
+    /// `date_on_year` with `valid_ymd_after` (`after == true`) or `valid_ymd_before`.
+    pub fn date_on_year(date: ds::Date, for_year: i32, after: bool) -> Option<NaiveDate> {
+        if after {
+            super::date_on_year(date, for_year, super::valid_ymd_after)
+        } else {
+            super::date_on_year(date, for_year, super::valid_ymd_before)
+        }
+    }
+
+    pub fn is_open_from_bounds(
+        date: NaiveDate,
+        bounds_start: impl IntoIterator<Item = NaiveDate>,
+        bounds_end: impl IntoIterator<Item = NaiveDate>,
+    ) -> bool {
+        super::is_open_from_bounds(date, bounds_start, bounds_end)
+    }
+
+    pub fn next_change_from_bounds(
+        date: NaiveDate,
+        bounds_start: impl IntoIterator<Item = NaiveDate>,
+        bounds_end: impl IntoIterator<Item = NaiveDate>,
+    ) -> NaiveDate {
+        super::next_change_from_bounds(date, bounds_start, bounds_end)
+    }
+
+    pub fn intervals_from_bounds(
+        bounds_start: impl IntoIterator<Item = NaiveDate>,
+        bounds_end: impl IntoIterator<Item = NaiveDate>,
+    ) -> impl Iterator<Item = RangeInclusive<NaiveDate>> {
+        super::intervals_from_bounds(bounds_start, bounds_end)
+    }
+
+    pub fn is_open_from_intervals(
+        date: NaiveDate,
+        intervals: impl Iterator<Item = RangeInclusive<NaiveDate>>,
+    ) -> bool {
+        super::is_open_from_intervals(date, intervals)
+    }
+
+    pub fn next_change_from_intervals(
+        date: NaiveDate,
+        intervals: impl Iterator<Item = RangeInclusive<NaiveDate>>,
+    ) -> NaiveDate {
+        super::next_change_from_intervals(date, intervals)
+    }
+}
